@@ -73,9 +73,17 @@ func buildChain(w *World, last common.Slot) *Scenario {
 		side = n
 		sc.Side = append(sc.Side, n)
 	}
-	if p := sc.BySlot[29]; p != nil && last >= 30 {
-		if n := w.AddBlock("t30", p, 30, BlockOps{Graffiti: 0xdd}); n != nil {
-			sc.Side2 = append(sc.Side2, n)
+	// a late fork: a block at slot 30 or 31 on the main block of slot 29 (or the closest earlier one)
+	if last >= 32 {
+		p := AncestorAt(tip, 29)
+		for _, slot := range []common.Slot{30, 31} {
+			if sc.BySlot[slot] != nil && false {
+				continue
+			}
+			if n := w.AddBlock(fmt.Sprintf("t%d", slot), p, slot, BlockOps{Graffiti: 0xdd}); n != nil {
+				sc.Side2 = append(sc.Side2, n)
+				break
+			}
 		}
 	}
 	return sc
